@@ -233,11 +233,48 @@ def d31():
             return "legacy HDF5 file read to the wrong field"
 
 
+def d41():
+    m = df.Mesh(p1=(0, 0), p2=(4, 2), n=(4, 2), subregions={"r0": df.Region(p1=(0, 0), p2=(2, 2))})
+    out = []
+    for dt in (int, bool):
+        f = df.Field(m, nvdim=1, value={"r0": 1, "default": lambda p: 0 if dt is bool else 3}, dtype=dt)
+        exp = [[1, 1], [1, 1], [0 if dt is bool else 3] * 2, [0 if dt is bool else 3] * 2]
+        if f.array[..., 0].tolist() != exp:
+            out.append(f"{dt.__name__}: {f.array[..., 0].tolist()}")
+    try:
+        df.Field(m, nvdim=1, value={"r0": 1}, dtype=int)
+        out.append("missing default accepted")
+    except KeyError:
+        pass
+    return ("dict default on int/bool field: " + "; ".join(out)) if out else None
+
+
+def d43():
+    m = df.Mesh(p1=0, p2=4, n=4)
+    f = df.Field(m, nvdim=1, value=lambda p: 2 * p)
+    try:
+        line = f.line(p1=0.5, p2=3.5, n=4)
+    except Exception as e:
+        return f"Field.line on a 1-d mesh raises {type(e).__name__}"
+    if line.data["v"].tolist() != [1.0, 3.0, 5.0, 7.0]:
+        return f"Field.line on a 1-d mesh: {line.data.to_dict('list')}"
+
+
+def d44():
+    m = df.Mesh(p1=(0, 0), p2=(4, 2), n=(4, 2))
+    f, g = df.Field(m, nvdim=2, value=(1, 2)), df.Field(m, nvdim=3, value=(1, 2, 3))
+    try:
+        f.array = g
+    except Exception:
+        return None if f.array.shape == (4, 2, 2) else "rejected but modified"
+    return f"f.array = g (nvdim 3 into nvdim 2) accepted: shape {f.array.shape}"
+
+
 ALL = {
     "D1": ("C13", d1), "D2": ("C13", d2), "D3": ("C12", d3), "D4": ("C12", d4),
     "D5": ("C08", d5), "D6": ("C08", d6), "D7": ("C08", d7), "D8": ("C03", d8),
     "D9": ("C03", d9), "D11": ("C02", d11), "D12": ("C10", d12), "D13": ("C10", d13),
-    "D14": ("C09", d14), "D15": ("C09", d15), "D16": ("C11", d16), "D20": ("C19", d20), "D21": ("C13", d21), "D22": ("C08", d22), "D23": ("C03", d23), "D31": ("C10", d31),
+    "D14": ("C09", d14), "D15": ("C09", d15), "D16": ("C11", d16), "D20": ("C19", d20), "D21": ("C13", d21), "D22": ("C08", d22), "D23": ("C03", d23), "D31": ("C10", d31), "D41": ("C02", d41), "D43": ("C02", d43), "D44": ("C02", d44),
 }
 
 
